@@ -54,6 +54,11 @@ CLAIMED['C12'] = dict(
    technique="Coq proof (heap separation invariant over histories) + refutation witness + history replay correspondence + abstract-map oracle",
    design_ref="5/C12")
 
+CLAIMED['C07'] = dict(
+   text="Proof (partial, props/C07.v): for every table the alphabet as a set is exactly the documented one (index, branch, single/double ring symbols, [bK] iff order(b) <= capacity(K), K != '?'); for every neutral key (all 118 elements x 3 prefixes, finite sweep lifted) the alphabet's atom symbol is a grammar symbol with that capacity. Charged keys and the closure 'every string over the alphabet decodes to a table-obedient molecule' are not yet theorems: they are checked per run - every symbol alone and in a live context, live/uniform strings over the returned alphabet under ~70 tables incl. multi-digit charges, capacity 0 and >8 - by decode-never-raises and the extracted independent reader.",
+   technique="Coq proof of the alphabet's content + finite sweep over all elements + extracted-reader oracle on strings over the returned alphabet + exact correspondence",
+   design_ref="5/C07")
+
 PENDING = {}
 for i in range(1, 20):
     pid = 'C%02d' % i
